@@ -109,19 +109,27 @@ class _BinaryOpAccumulatorNumpy(Accumulator):
         self.acc = None
         self._n = 0
 
+    def _combine(self, a, b):
+        ret = self.__class__._operator(a, b)
+        if not isinstance(ret, (np.ndarray, np.generic)):
+            # object operands (python ints beyond int64) come back as a bare python
+            # object, which numpy cannot take as an operand of the next call.
+            ret = np.array(ret)
+        return ret
+
     def _accumulate_obj(self, obj):
         self._n += 1
         if self.acc is None:
             self.acc = np.array(obj)
             return
-        self.acc = self.__class__._operator(self.acc, obj)
+        self.acc = self._combine(self.acc, obj)
 
     def _accumulate_other(self, other):
         if other.acc is not None:
             if self.acc is None:
                 self.acc = np.array(other.acc)
             else:
-                self.acc = self.__class__._operator(self.acc, other.acc)
+                self.acc = self._combine(self.acc, other.acc)
         self._n += other._n
 
     @property
